@@ -477,6 +477,8 @@ def verdict(ret):
 
 def frozen(circuit, objs):
     errs = []
+    storage_before = circuit.persistent_dict
+    inputs_before = {n: dict(b.inputs) for n, b in objs.items() if hasattr(b, 'inputs')}
     attempts = {
         'new block': lambda: edzed.Input('late', initdef=0),
         'connect': lambda: Noop.connect(objs['c0'], 's0'),
@@ -493,6 +495,12 @@ def frozen(circuit, objs):
             errs.append(('C15.not_frozen', f"{what}: {err!r} instead of EdzedInvalidState"))
     if 'late' in {b.name for b in circuit.getblocks()}:
         errs.append(('C15.not_frozen', "a block was added after finalisation"))
+    # a refused call must not have had its effect all the same
+    if circuit.persistent_dict is not storage_before:
+        errs.append(('C15.not_frozen', "the refused set_persistent_data() has replaced the storage"))
+    for n, b in objs.items():
+        if hasattr(b, 'inputs') and dict(b.inputs) != inputs_before[n]:
+            errs.append(('C15.not_frozen', f"the refused connect() has changed the inputs of {n}"))
     return errs
 
 
